@@ -587,3 +587,112 @@ def bounded_x2max0(rng, tier):
         elif len(samples) < 3:
             samples.append({"n": n, "m": m, "entry": j, "window": [int(i_l), int(i_u)]})
     return {"evaluations": evals, "distinct_nontrivial": len(distinct), "failures": failures[:5], "samples": samples}
+
+
+# ------------------------------------------------------------------ the chi-square window leaves out only entries beyond x2_max
+def _pruning(m):
+    @theorem(P, "pruning-is-sound[m=%d]" % m)
+    def thm():
+        ctx = _sym.ctx()
+        self = _mk_self(ctx, m)
+        yv = vec(_obs(ctx, m, True))
+        x2, i_l, i_u, j = ctx.fresh("x2_max", "real"), ctx.fresh("i_l", "int"), ctx.fresh("i_u", "int"), ctx.fresh("j", "int")
+        requires(wf(self), x2 >= 0, window(self, yv, x2, i_l, i_u))
+        requires(0 <= j, j < self.n)
+        below = j < i_l
+        requires(below or j >= i_u)                              # an ARBITRARY entry outside the window (two cases)
+        d = [self.y[j, k] - yv[k] for k in range(m)]
+        a = self.pc1_proj[j] - proj(self, yv)
+        R = radius(self, x2)
+        along = 0
+        for k in range(m):
+            along = along + self.pc1[k] * d[k]
+        ensures(a == along, id="step: the difference of the projections is the projection of the difference")
+        ensures(R >= 0 and R * R == 2 * x2 / self.pc1_e, id="step: the radius is the square root")
+        ensures(self.pc1_e * (R * R) == 2 * x2, id="step: pc1_e R^2 = 2 x2_max")
+        ensures((a < -R) if below else (a > R), id="step: the entry lies beyond the radius along the principal axis")
+        ensures(a * a > R * R, id="step: squared")
+        ensures(self.pc1_e * (a * a) > self.pc1_e * (R * R), id="step: scaled by the positive eigenvalue")
+        # positive semi-definiteness of S^-1 (part of wf) instantiated BY HAND at r = d - a pc1 (universal instantiation)
+        r = [d[k] - a * self.pc1[k] for k in range(m)]
+        assume(psd_instance(self.s_o_inv, r))
+        q = 0
+        for k in range(m):
+            for l in range(m):
+                q = q + r[k] * self.s_o_inv[k, l] * r[l]
+        ensures(chi2(self, yv, j) - self.pc1_e * (a * a) == q,
+                id="step: chi-square = pc1_e a^2 + (d - a pc1)^T S^-1 (d - a pc1)   (pc1 is a unit eigenvector of the symmetric S^-1)")
+        ensures(chi2(self, yv, j) > 2 * x2, id="an entry outside the window has chi-square > 2 x2_max")
+        ensures(chi2(self, yv, j) > x2, id="... hence beyond x2_max: only entries whose chi-square exceeds x2_max are left out")
+        ensures(w(self, yv, j) < exp(-x2 / 2), id="... and its weight is below exp(-x2_max / 2)")
+    return thm
+
+
+for _m in _MS:
+    _pruning(_m)
+
+
+# ------------------------------------------------------------------ independence of the order of the database
+from contracts.C19 import _sum_perm as _sum_perm_axiom      # noqa: E402,F401  (registers the trusted axiom `sum_perm`)
+
+
+def _order(m):
+    @theorem(P, "order-independent[m=%d]" % m)
+    def thm():
+        ctx = _sym.ctx()
+        self = _mk_self(ctx, m)
+        yv = vec(_obs(ctx, m, True))
+        n = self.n
+        Y, X = _fa(ctx, "Y", (n, m)), _fa(ctx, "X", (n,))
+        pi = _fa(ctx, "pi", (n,), "int")
+        pi.ghost_inverse = _fa(ctx, "pi_inv", (n,), "int")
+        requires(same_database(self, Y, X, pi))           # what BMCI.__init__ guarantees for the caller's database (Y, X)
+        W0 = array_of(n, lambda j: exp(-chi2_rows(self, yv, Y, j) / 2))          # weights / weighted values over the CALLER's order
+        XW0 = array_of(n, lambda j: X[j] * exp(-chi2_rows(self, yv, Y, j) / 2))
+        Wi = array_of(n, lambda k: w(self, yv, k))                                 # ... over the object's internal order
+        XWi = array_of(n, lambda k: self.x[k] * w(self, yv, k))
+        pointwise(n, lambda k: Wi[k] == W0[pi[k]], id="step: the weight of internal entry k is the weight of the caller's entry pi(k)")
+        pointwise(n, lambda k: XWi[k] == XW0[pi[k]], id="step: likewise for x * weight")
+        use_axiom("sum_perm", W0, Wi, lambda t: pi.z3func(t), n)
+        use_axiom("sum_perm", XW0, XWi, lambda t: pi.z3func(t), n)
+        ensures(ssum(n, lambda k: Wi[k]) == ssum(n, lambda j: W0[j]), id="total weight: the same sum over the caller's database")
+        ensures(ssum(n, lambda k: XWi[k]) == ssum(n, lambda j: XW0[j]), id="weighted sum of x: the same sum over the caller's database")
+        c = wsum(self, yv, 0, n)
+        requires(c > 0)
+        scaled = array_of(n, lambda k: self.x[k] * w(self, yv, k) / c)
+        pointwise(n, lambda k: scaled[k] == (1 / c) * XWi[k], id="step: each term is scaled by 1 / total weight")
+        use_lemma("sum_scale", XWi, scaled, 1 / c, n)
+        ensures(ssum(n, lambda k: scaled[k]) == (1 / c) * ssum(n, lambda k: XWi[k]), id="step: the sum of the scaled terms (lemma sum_scale)")
+        ensures(c == ssum(n, lambda k: Wi[k]), id="step: the normalisation is the total weight")
+        ensures(wmean(self, yv, 0, n) == ssum(n, lambda k: XWi[k]) / ssum(n, lambda k: Wi[k]), id="step: mean == sum(w x) / sum(w) in the internal order")
+        ensures(wmean(self, yv, 0, n) == ssum(n, lambda j: XW0[j]) / ssum(n, lambda j: W0[j]),
+                id="predict's mean == sum(w_i x_i) / sum(w_i) over the caller's database, whatever its order")
+    return thm
+
+
+for _m in _MS:
+    _order(_m)
+
+
+@theorem(P, "order-independent-CANARY", canary=True)
+def thm_order_canary():
+    ctx = _sym.ctx()
+    self = _mk_self(ctx, 1)
+    yv = vec(_obs(ctx, 1, True))
+    requires(wsum(self, yv, 0, self.n) > 0)
+    ensures(wmean(self, yv, 0, self.n) == 0, id="CANARY: the mean is always 0 (must fail)")
+
+
+# ------------------------------------------------------------------ how far the pruned estimate can be from the full one
+@theorem(P, "excluded-share-bound")
+def thm_share(A: "real", B: "real", C: "real", D: "real", lo: "real", hi: "real"):
+    """A, C: sum of w x and of w over the window; B, D: the same over the left-out entries; lo <= x_i <= hi.
+    Pure real algebra: the link to the sums over the database (weighted means of x lie in [lo, hi]) is the sum_le lemma and is
+    exercised in the bounded tier (float-oracle) only."""
+    requires(C > 0, D >= 0, lo <= hi)
+    requires(lo * C <= A, A <= hi * C, lo * D <= B, B <= hi * D)
+    full, pruned, share = (A + B) / (C + D), A / C, D / (C + D)
+    ensures((full - pruned) * (C + D) * C == B * C - A * D, id="step: difference of the two means over a common denominator")
+    ensures(B * C - A * D <= (hi - lo) * D * C and A * D - B * C <= (hi - lo) * D * C, id="step: bounded by the spread of x")
+    ensures(full - pruned <= share * (hi - lo) and pruned - full <= share * (hi - lo),
+            id="|mean over all entries - mean over the window| <= (left-out share of the total weight) * (max x - min x)")
